@@ -81,7 +81,7 @@ def build_soc(cfg):
     p = SimPlatform('SIM', io)
     kw = dict(clk_freq=1e6, cpu_type=None, integrated_sram_size=0x40, uart_name='serial', with_timer=True, csr_data_width=cfg.get("csr_data_width", 32),
               bus_standard=cfg.get("bus_standard", "wishbone"))
-    for k in ("csr_paging", "csr_ordering", "csr_address_width", "bus_interconnect"):
+    for k in ("csr_paging", "csr_ordering", "csr_address_width", "bus_interconnect", "integrated_rom_size", "integrated_rom_init"):
         if k in cfg:
             kw[k] = cfg[k]
     soc = SoCCore(p, **kw)
@@ -295,7 +295,7 @@ def build(cfgname, K):
             zbad["csr_memory_window_%s_answers_at_published_base" % n_] = (goal_m, chk_m)
     # memory regions: first and last word
     for n_, info in j["memories"].items():
-        if n_ in ("sram", "main_ram"):
+        if n_ in ("sram", "main_ram", "scratch"):
             for which, adr in (("first", info["base"]), ("last", info["base"] + info["size"] - 4)):
                 def goal_x(U, adr=adr):
                     V = U.frames[0][Vsig]
